@@ -470,6 +470,11 @@ struct Conn {
     /// TCP mode: our socket (for an abortive close), the task copying what arrives into `r`, and the
     /// PRNG choosing write boundaries / pauses / the way the connection is dropped
     tcp_fd: Option<std::os::fd::RawFd>,
+    /// TCP mode: (our port, the node's port) of this connection
+    tcp_ports: Option<(u16, u16)>,
+    /// TCP mode: the write half of our socket (kept concrete: an abortive close must not be preceded
+    /// by the FIN that dropping an `OwnedWriteHalf` sends - `forget` it instead)
+    tw: Option<tokio::net::tcp::OwnedWriteHalf>,
     pump: Option<tokio::task::JoinHandle<()>>,
     frag: Option<Rng>,
     buf: Vec<u8>,
@@ -537,9 +542,9 @@ impl Conn {
             let mut at = 0;
             for c in cuts {
                 let pause = rng.below(3);
-                let Some(w) = self.w.as_mut() else { return };
+                let Some(w) = self.tw.as_mut() else { return };
                 if w.write_all(&bytes[at..c]).await.is_err() || w.flush().await.is_err() {
-                    self.w = None;
+                    self.tw = None;
                     return;
                 }
                 at = c;
@@ -566,13 +571,13 @@ impl Conn {
         let how = self.frag.as_mut().map(|r| r.below(3)).unwrap_or(0);
         match how {
             0 => {
-                if let Some(mut wh) = self.w.take() {
+                if let Some(mut wh) = self.tw.take() {
                     let _ = wh.shutdown().await;
                 }
                 "halfclose"
             }
             1 => {
-                self.w = None;
+                self.tw = None;
                 if let Some(p) = self.pump.take() {
                     p.abort();
                 }
@@ -582,7 +587,11 @@ impl Conn {
                 if let Some(fd) = self.tcp_fd {
                     tcpq::set_reset_on_close(fd);
                 }
-                self.w = None;
+                // no FIN first: the write half is forgotten, the socket closes (RST) when the pump's
+                // read half goes
+                if let Some(wh) = self.tw.take() {
+                    wh.forget();
+                }
                 if let Some(p) = self.pump.take() {
                     p.abort();
                 }
@@ -827,7 +836,7 @@ impl World {
         quiesce().await;
         let cell = self.node.get_children().into_iter().find(|c| !before.contains(&c.get_id()));
         let (r, w) = tokio::io::split(ours);
-        Conn { r: Box::new(r), w: Some(Box::new(w)), tcp_fd: None, pump: None, frag: None, buf: Vec::new(), cell, is_server, chals: Vec::new(), last_issued: None, last_digest: None }
+        Conn { r: Box::new(r), w: Some(Box::new(w)), tcp_fd: None, tcp_ports: None, tw: None, pump: None, frag: None, buf: Vec::new(), cell, is_server, chals: Vec::new(), last_issued: None, last_digest: None }
     }
 
     /// A real loopback TCP connection. `is_server`: the adversary dials the node's real `Listener`
@@ -861,6 +870,7 @@ impl World {
         .await;
         use std::os::fd::AsRawFd;
         let fd = stream.as_raw_fd();
+        let ports = (stream.local_addr().map(|a| a.port()).unwrap_or(0), stream.peer_addr().map(|a| a.port()).unwrap_or(0));
         let (mut tr, tw) = stream.into_split();
         let (pipe_r, mut pipe_w) = tokio::io::duplex(1 << 22);
         // our end is read continuously (a receive queue nobody drains is not "quiet")
@@ -879,7 +889,7 @@ impl World {
         });
         quiesce().await;
         let frag = Rng::new(0x7C9 ^ (self.label << 20) ^ port as u64);
-        Conn { r: Box::new(pipe_r), w: Some(Box::new(tw)), tcp_fd: Some(fd), pump: Some(pump), frag: Some(frag), buf: Vec::new(), cell, is_server, chals: Vec::new(), last_issued: None, last_digest: None }
+        Conn { r: Box::new(pipe_r), w: None, tcp_fd: Some(fd), tcp_ports: Some(ports), tw: Some(tw), pump: Some(pump), frag: Some(frag), buf: Vec::new(), cell, is_server, chals: Vec::new(), last_issued: None, last_digest: None }
     }
 
     async fn spawn_probe(&mut self, remotable: bool, group: Option<(&str, &str)>) -> u64 {
@@ -1286,8 +1296,14 @@ async fn op_drop(w: &mut World, log: &mut Log, st: &mut Stats, k: u64) {
             // (bounded) - if it never comes the observation says alive=1 and the model disagrees
             let how = c.tcp_drop().await;
             st.bump(&format!("tcp_drop_{how}"));
-            let cell = c.cell.clone();
-            tcpq::wait_until(|| cell.as_ref().map(|c| (c.get_status() as u8) >= (ractor::ActorStatus::Stopping as u8)).unwrap_or(true), 5).await;
+            // event-driven: until the node's socket has RECEIVED our FIN / RST (it leaves ESTABLISHED -
+            // read off the kernel), then rest; the session must be dead at that rest point: waiting for
+            // its death instead would let the ping loop (virtual seconds later) hide a reader that
+            // ignores the end of the stream
+            if let Some((ours, nodes)) = c.tcp_ports {
+                tcpq::wait_until(|| tcpq::sock_state(nodes, ours) != Some(1), 10).await;
+            }
+            quiesce().await;
         } else if let Some(mut wh) = c.w.take() {
             let _ = wh.shutdown().await; // the node reads EOF
         }
